@@ -47,6 +47,9 @@ Init ==
         /\ OneHeaderOK(h)
         /\ case = [part |-> "hdr", hdrs |-> <<h>>, extra |-> FALSE, decl |-> bd[1], ct |-> Json, req |-> "qw", ctText |-> Render(Json),
                    body |-> O(<<"q">>, <<Num(4)>>), excludeBody |-> bd[2], excludeWO |-> FALSE, multi |-> mu]
+   \/ \E h \in CtHeaders, d \in {"none", "json"} :
+        case = [part |-> "hdr", hdrs |-> <<h>>, extra |-> FALSE, decl |-> d, ct |-> Json, req |-> "qw", ctText |-> Render(Json),
+                body |-> O(<<"q">>, <<Num(4)>>), excludeBody |-> FALSE, excludeWO |-> FALSE, multi |-> FALSE]
    \/ \E hh \in TwoHeaders, mu \in BOOLEAN, xt \in BOOLEAN :
         /\ TwoOK(hh[1]) /\ TwoOK(hh[2])
         /\ case = [part |-> "hdr", hdrs |-> hh, extra |-> xt, decl |-> "none", ct |-> Json, req |-> "qw", ctText |-> Render(Json),
